@@ -32,6 +32,11 @@ def cells(tier):
                 sc = scen(pool(size), acts, outcomes=["ret"], ecb="plain", ccb="plain")
                 out.append(cell(f"s{size} {rn} gac+after{' until' if un else ''}", sc, MON))
     for size in [1, 2]:
+        sc = scen(pool(size), [[M("G", 3, 1, name="g")], [cgroup("G"), M("G2", 3, 1, name="g", needs_cancelled="G")], [GAC]], outcomes=["ret"])
+        out.append(cell(f"s{size} M3/1 g|cgroup,M3/1 g again|gac", sc, MON))
+        sc = scen(pool(size), [[M("G", 3, 1)], [cgroup("G"), M("G2", 2, 1)], [GAC]], outcomes=["ret"])
+        out.append(cell(f"s{size} M3/1|cgroup,M2/1 (auto names)|gac", sc, MON))
+    for size in [1, 2]:
         sc = scen(pool(size), [[A("A", 2)], [cancel(rid("A", 0))], [GAC], [UNTIL]], outcomes=["ret"], ecb="slow", ccb="slow", slow_ids=[0])
         out.append(cell(f"s{size} A2 cancel0 gac until slowcbs", sc, MON))
         sc = scen(pool(2), [[A("A", size + 1)], [GAC], [UNTIL]], outcomes=["ret"], ecb="slow", slow_ids=[0, 1])
